@@ -192,6 +192,7 @@ func validateStruct(val reflect.Value, opts *options) error {
 }
 
 func validateMap(val reflect.Value, opts *options) error {
+	val = chaseValue(val)
 	for _, key := range val.MapKeys() {
 		if err := tryRecursiveValidate(val.MapIndex(key), opts, nil); err != nil {
 			return err
@@ -201,6 +202,7 @@ func validateMap(val reflect.Value, opts *options) error {
 }
 
 func validateArray(val reflect.Value, opts *options) error {
+	val = chaseValue(val)
 	for i := 0; i < val.Len(); i++ {
 		if err := tryRecursiveValidate(val.Index(i), opts, nil); err != nil {
 			return err
